@@ -1,5 +1,11 @@
 from . import infer
+from .. import deductive
+from ..contracts import cellalg as K
 
 
 def run(tier):
-    return infer.split(zeros=True)
+    reps = infer.split(zeros=True)
+    # the extended-real algebra the vector-level invariants rest on, established per cell on the real Factor methods
+    for q, c, label in K.FUNCTIONS:
+        reps.append(deductive.verify_function(K.REL, q, c, hooks=K.AlgHooks(), module_env=K.module_env(), prefix='%s::%s[cell: %s]' % (K.REL, q, label)))
+    return reps
